@@ -1,6 +1,7 @@
 import Treepath.Proofs.Drive
 import Treepath.Model.Api
 import Treepath.Proofs.MachineLemmas
+import Treepath.Proofs.DriveX
 /- C07 — result iterators are lazy, stay exhausted, and do not interfere -/
 namespace Treepath.C07
 variable {α : Type}
@@ -40,6 +41,15 @@ theorem work_so_far_is_a_prefix (steps : Array (Step J)) (src : Src J) (hq : Qui
     (hy : Yields J.view steps src limit freshIter rs E st') :
     ∃ E2, stream steps.toList 0 src.rootNode = E ++ E2 :=
   yields_stream_prefix steps src hq hp limit st' rs E hy
+
+/-- laziness for every path, raising predicates included: after any number of successful
+`next()` calls the results are a prefix of what the definition produces before its first
+exception — no candidate beyond has contributed -/
+theorem first_k_results_any_predicate (steps : Array (Step J)) (src : Src J) (hp : PredsClean steps)
+    (limit : Nat) (st' : St J) (rs : List (MNode J)) (E : List (Ev J))
+    (hy : Yields J.view steps src limit freshIter rs E st') :
+    ∃ rest, (evalE steps.toList src.rootNode).1 = rs ++ rest :=
+  yields_prefix_x steps src hp limit st' rs E hy
 
 /-- an iterator is a value: advancing one iterator cannot change what another one yields
 (the model has no shared mutable state; shared *path objects* are immutable, C15) -/
